@@ -21,7 +21,7 @@ PANIC_TOKENS = [
 ]
 SHARING_TOKENS = [
     ("unsafe", re.compile(r"\bunsafe\b")),
-    ("interior_mut", re.compile(r"\b(?:Cell|RefCell|UnsafeCell|OnceCell|Rc)\s*<|\bRc::|static\s+mut\b|thread_local!")),
+    ("interior_mut", re.compile(r"\b(?:Cell|RefCell|UnsafeCell|OnceCell|Rc|Mutex|RwLock|OnceLock|LazyLock|Lazy|Condvar)\s*<|\bRc::|\bAtomic[A-Z]\w*|static\s+mut\b|thread_local!|\bstatic\s+[A-Z_]+\s*:")),
 ]
 
 
